@@ -412,7 +412,15 @@ fn resave(fmt: Fmt, a: &Buffer, opts: &icy_engine::SaveOptions) -> Result<(), (S
         if fold {
             return Err((format!("{f}|resave{class}"), format!("[{}] {msg}", d.field)));
         }
-        let hc = if d.field == "height" && a.get_height() < 25 && b.get_height() == 25 { "|saved<25_loaded_25" } else { "" };
+        let w = a.get_width().max(1);
+        let hc = if d.field == "height" && a.get_height() < 25 && b.get_height() == 25 {
+            "|saved<25_loaded_25"
+        } else if fmt == Fmt::Tnd && d.field == "fg" && (0..=d.cell.unwrap_or(0) as i32).all(|k| shown(a, k % w, k / w).fg == (0, 0, 0)) {
+            // same input class as the round-trip key: the writer has not emitted a foreground command yet
+            "|black_before_first_fg_command"
+        } else {
+            ""
+        };
         return Err((format!("{f}|resave|{}{hc}{class}", d.field), msg));
     }
     Ok(())
